@@ -211,8 +211,9 @@ def must_reject(case):
             if mut == 'ipow':
                 continue
             res.append(f)
-        elif f == 'units' and not typed and mut in ('iadd', 'isub', 'set_units'):
-            res.append(f)
+        elif f == 'units' and not typed and (mut in ('iadd', 'isub', 'set_units')
+                                               or (mut in G.ARITH and not G.CLS[case['target']['cls']][3])):
+            res.append(f)          # incompatible units where units are compared; any units for a class without units
         elif f == 'kind' and not typed and mut in ('iadd', 'isub', 'imul', 'itruediv') and a.get('t') == 'q':
             res.append(f)          # a float QUBE operand for an integer target (a bare Python float on a Python-int
                                    # value is carried out by Python and is not judged)
